@@ -548,6 +548,9 @@ func runC03(c *Ctx) {
 		}
 	})
 
+	c.rule("C03.O6", "no committed filter header outlives its block across a restart: a crash between the index update and the file cut of a rollback (or after the file append of a write) leaves the filter header file ahead of the index; NewFilterHeaderStore, on every non-empty open, reads the index tip, compares it with the last record in the file and cuts the file back to the index tip (truncateHeaders) when they differ, before the store is handed out - the surplus entries belong to disconnected blocks, and the next append would otherwise land behind them, off the height its index entry names", func() {
+		c.startupReconciliation(reconSpec{fnNewF, "IsEqual"})
+	})
 	c.rule("C03.O5", "served checkpoint lists meet the hard-coded checkpoints first: in resolveConflict the comparison with the built-in checkpoints (chainsync.ValidateCFHeader over every entry of every served list) lies before the peers' lists are compared with each other (checkCFCheckptSanity) and before any list is returned: unanimous peers cannot get a false list through; the inner loop covers every entry of the list with the height (i+1)*interval", func() {
 		fn := c.fn(fnResolve)
 		vcf := c.funcObj("chainsync", "ValidateCFHeader")
@@ -878,64 +881,64 @@ const everyPositionComparedDoc = "peers' answers are compared at every position 
 
 // everyPositionCompared: see everyPositionComparedDoc (C03.V5, also C13.V1).
 func (c *Ctx) everyPositionCompared() {
-		cfm := c.funcObj("neutrino", "checkForCFHeaderMismatch")
-		getAll := c.method("neutrino", "blockManager", "getCFHeadersForAllPeers")
-		for _, name := range []string{fnUncheckCFH, fnResolve} {
-			fn := c.fn(name)
-			construct := c.nm(fn) + " | the mismatch loop covers positions 0 .. numHeaders-1 of the answers"
-			calls := find(fn, callTo(cfm))
-			if len(calls) != 1 {
-				c.fail(construct, c.P.Pos(fn.Pos()), fmt.Sprintf("%d calls of checkForCFHeaderMismatch, 1 tabled", len(calls)))
-				continue
-			}
-			call := calls[0]
-			h := ir.LoopHeaderOf(call.Block())
-			if h == nil {
-				c.fail(construct, c.at(call), "checkForCFHeaderMismatch is not called in a loop")
-				continue
-			}
-			lf := loopFormOf(h)
-			if lf.problem != "" {
-				c.fail(construct, c.at(call), lf.problem)
-				continue
-			}
-			var bad []string
-			a := argsOf(call)
-			// the answers and their count come from one getCFHeadersForAllPeers call
-			var src ssa.Value
-			if ex, ok := ir.Strip(a[0]).(*ssa.Extract); ok && ex.Index == 0 && valIsCallTo(getAll)(ex.Tuple) {
-				src = ex.Tuple
-			} else {
-				bad = append(bad, "the compared answers are not the map getCFHeadersForAllPeers returned")
-			}
-			if ex, ok := ir.Strip(lf.bound).(*ssa.Extract); !ok || ex.Index != 1 || ex.Tuple != src {
-				bad = append(bad, "the loop bound at "+c.at(lf.test)+" is not the count returned with the answers")
-			}
-			if k, isC := lf.firstConst(); !isC || k != 0 || lf.step != 1 || lf.op != token.LSS {
-				bad = append(bad, "the loop at "+c.at(lf.test)+" does not count 0, 1, .. while below the bound")
-			}
-			if off, ok := counterOffset(lf, a[1]); !ok || off != 0 {
-				bad = append(bad, "the position compared is not the loop counter")
-			}
-			for _, e := range ir.LoopExits(h) {
-				if e == lf.exit {
-					continue
-				}
-				ir.WalkEdge(e, nil, func(in ssa.Instruction) bool {
-					if r, ok := in.(*ssa.Return); ok {
-						if errSuccess(r) {
-							bad = append(bad, "the loop is left early at "+c.at(e.From.Instrs[len(e.From.Instrs)-1])+" and the function goes on to succeed (return at "+c.at(r)+"): later positions are not compared")
-						}
-						return false
-					}
-					return true
-				})
-			}
-			sort.Strings(bad)
-			bad = uniq(bad)
-			c.verdict(len(bad) == 0, construct, c.at(call), "for i := 0; i < numHeaders; i++ { checkForCFHeaderMismatch(headers, i) .. } with headers, numHeaders from one getCFHeadersForAllPeers call", join(bad), c.at(lf.test))
+	cfm := c.funcObj("neutrino", "checkForCFHeaderMismatch")
+	getAll := c.method("neutrino", "blockManager", "getCFHeadersForAllPeers")
+	for _, name := range []string{fnUncheckCFH, fnResolve} {
+		fn := c.fn(name)
+		construct := c.nm(fn) + " | the mismatch loop covers positions 0 .. numHeaders-1 of the answers"
+		calls := find(fn, callTo(cfm))
+		if len(calls) != 1 {
+			c.fail(construct, c.P.Pos(fn.Pos()), fmt.Sprintf("%d calls of checkForCFHeaderMismatch, 1 tabled", len(calls)))
+			continue
 		}
+		call := calls[0]
+		h := ir.LoopHeaderOf(call.Block())
+		if h == nil {
+			c.fail(construct, c.at(call), "checkForCFHeaderMismatch is not called in a loop")
+			continue
+		}
+		lf := loopFormOf(h)
+		if lf.problem != "" {
+			c.fail(construct, c.at(call), lf.problem)
+			continue
+		}
+		var bad []string
+		a := argsOf(call)
+		// the answers and their count come from one getCFHeadersForAllPeers call
+		var src ssa.Value
+		if ex, ok := ir.Strip(a[0]).(*ssa.Extract); ok && ex.Index == 0 && valIsCallTo(getAll)(ex.Tuple) {
+			src = ex.Tuple
+		} else {
+			bad = append(bad, "the compared answers are not the map getCFHeadersForAllPeers returned")
+		}
+		if ex, ok := ir.Strip(lf.bound).(*ssa.Extract); !ok || ex.Index != 1 || ex.Tuple != src {
+			bad = append(bad, "the loop bound at "+c.at(lf.test)+" is not the count returned with the answers")
+		}
+		if k, isC := lf.firstConst(); !isC || k != 0 || lf.step != 1 || lf.op != token.LSS {
+			bad = append(bad, "the loop at "+c.at(lf.test)+" does not count 0, 1, .. while below the bound")
+		}
+		if off, ok := counterOffset(lf, a[1]); !ok || off != 0 {
+			bad = append(bad, "the position compared is not the loop counter")
+		}
+		for _, e := range ir.LoopExits(h) {
+			if e == lf.exit {
+				continue
+			}
+			ir.WalkEdge(e, nil, func(in ssa.Instruction) bool {
+				if r, ok := in.(*ssa.Return); ok {
+					if errSuccess(r) {
+						bad = append(bad, "the loop is left early at "+c.at(e.From.Instrs[len(e.From.Instrs)-1])+" and the function goes on to succeed (return at "+c.at(r)+"): later positions are not compared")
+					}
+					return false
+				}
+				return true
+			})
+		}
+		sort.Strings(bad)
+		bad = uniq(bad)
+		c.verdict(len(bad) == 0, construct, c.at(call), "for i := 0; i < numHeaders; i++ { checkForCFHeaderMismatch(headers, i) .. } with headers, numHeaders from one getCFHeadersForAllPeers call", join(bad), c.at(lf.test))
 	}
+}
 
 const everyServedCheckpointCheckedDoc = "a peer serving a filter checkpoint that contradicts a built-in one is banned wherever the client's own filter headers stand: in resolveConflict every entry of every served list reaches chainsync.ValidateCFHeader (no entry is skipped on account of its height or of what the store already holds; the later comparison with the store finds a mismatch but bans nobody)"
 
